@@ -1234,7 +1234,7 @@ def make_world_externals(world_ref):
              s_=IndexExpr(), ndarray=ExternalClass('jnp.ndarray'),
              iinfo=IInfo, int32='int32', float32='float32', float64='float64', int64='int64',
              inf=Poly.atom(('K', 'inf')), nan=Poly.atom(('K', 'nan')), pi=Poly.atom(('K', 'pi')),
-             isnan=_isnan, any=_jnp_any, all=_jnp_all, logical_and=_logical_and, logical_not=_logical_not, logical_or=_logical_or,
+             isnan=_isnan, isfinite=(lambda x: term('isfinite', x)), isinf=(lambda x: term('isinf', x)), any=_jnp_any, all=_jnp_all, logical_and=_logical_and, logical_not=_logical_not, logical_or=_logical_or,
              count_nonzero=opaque_fn('count_nonzero'), argsort=opaque_fn('argsort'),
              unravel_index=_unravel_index, divmod=_divmod_model,
              take=_take, einsum=_einsum_model, split=_split_model, cumsum=opaque_fn('cumsum'),
